@@ -73,7 +73,7 @@ var ghostVars = []GhostVar{
 	{"chanClosed", SInt, "chan"}, {"evOpen", SBool, "chan"}, {"evNext", SInt, "chan"}, {"evCur", SInt, "chan"}, {"evCount", SInt, "chan"},
 	{"msClosed", SInt, "chan"}, {"msSent", SInt, "chan"}, {"rxDone", SInt, "chan"},
 	{"opaRejected", SBool, "opa"}, {"opaEvaluated", SBool, "opa"}, {"ldRejected", SBool, "ld"},
-	{"exitCode", SInt, "exit"}, {"stdout", SString, "stdout"}, {"fsContent", SString, "fs"}, {"fsExists", SBool, "fs"}, {"fsWritable", SBool, "const"}, {"fOffset", SInt, "fs"}, {"fAppend", SBool, "fs"}, {"fWr", SBool, "fs"},
+	{"exitCode", SInt, "exit"}, {"panicking", SBool, "exit"}, {"stdout", SString, "stdout"}, {"fsContent", SString, "fs"}, {"fsExists", SBool, "fs"}, {"fsWritable", SBool, "const"}, {"fOffset", SInt, "fs"}, {"fAppend", SBool, "fs"}, {"fWr", SBool, "fs"},
 }
 
 type deferred struct {
@@ -121,6 +121,7 @@ type Exec struct {
 	ifaceClauses []*Clause // interface-contract ensures checked against this implementation
 	ifaceRecv string
 	deferred []*deferred
+	inDefer  bool // executing deferred calls at the function's exit
 	preArgs  []Term
 	seenStack []Term
 	seenFinal Term
